@@ -353,5 +353,5 @@ TECHNIQUE = "deep tree observation before/after to_ical, permutation of the inse
 LEVEL_TEXT = ("Each generated API program is serialised twice with a deep observation of the tree around it, rebuilt under sampled permutations of its insertion "
               "history (bytes must not change; repeated properties and subcomponents must keep their order), serialised unsorted (names must follow insertion "
               "order at every level), checked for balanced nesting with an independent tokenizer, and batches of programs are rebuilt in fresh interpreters "
-              "with different hash seeds and compared by digest.")
+              "with different hash seeds and compared by digest. The tree parsed from the model's text and values stored by item assignment get the same before/after observation, and bytes and observation must survive unrelated use of the library on other objects in between.")
 LEVEL_NOTE = "trusts R8/R2/R3 and the G3 builder; hash seeds and permutations are sampled"
